@@ -215,6 +215,20 @@ def branch_sweep(rnd, thorough=False):
                        "meta": {"mn": mn, "stmt": 0, "target": n + 1, "k": k}}
                 yield {"lines": L(*([" NOP"] * 20 + ["L NOP"] + [" NOP"] * n + [" %s L%s,PCR" % (mn, ks)])), "tag": "pcr-k-bwd",
                        "meta": {"mn": mn, "stmt": n + 21, "target": 20, "k": k}}
+    # a statement referring to its own label (+- constant): the statement itself lies between source and target
+    for mn in (("LDY", "LEAX", "LDA") if thorough else ("LDY", "LEAX")):
+        for k in (list(range(118, 134)) + [0, 1, 50, 200, 300] if thorough else [0, 100, 122, 123, 124, 125, 126, 127, 128, 129, 200]):
+            for sign in "-+":
+                for ind in ((False, True) if thorough else (False,)):
+                    t = "L%s%d,PCR" % (sign, k)
+                    yield {"lines": L(" RMB 300", "L %s %s" % (mn, "[" + t + "]" if ind else t), " RMB 300"), "tag": "pcr-self",
+                           "meta": {"mn": mn, "stmt": 1, "target": 1, "k": k if sign == "+" else -k}}
+        yield {"lines": L("L %s L-125,PCR" % mn), "tag": "pcr-self", "meta": {"mn": mn, "stmt": 0, "target": 0, "k": -125}}
+    # label +- label as PCR target: the second label's address moves the target
+    for n in ((0, 1, 60, 100, 120, 125, 126, 127, 128, 130, 200) if thorough else (0, 100, 125, 128, 200)):
+        yield {"lines": L(" RMB %d" % n, "M NOP", "L LEAX L+M,PCR"), "tag": "pcr-ll", "meta": {"mn": "LEAX", "stmt": 2, "target": 2, "k": 0}}
+        yield {"lines": L(" RMB %d" % n, "M NOP", " NOP", "L NOP", " LEAX L-M,PCR"), "tag": "pcr-ll", "meta": {"mn": "LEAX", "stmt": 4, "target": 3, "k": 0}}
+        yield {"lines": L("M NOP", " LDY M-L,PCR", " RMB %d" % n, "L NOP"), "tag": "pcr-ll", "meta": {"mn": "LDY", "stmt": 1, "target": 0, "k": 0}}
     for n in [32700, 32760, 32766, 32770, 40000]:
         yield {"lines": L(" LEAX L,PCR", " RMB %d" % n, "L NOP"), "tag": "pcr-far", "meta": {"mn": "LEAX", "stmt": 0, "target": 2, "k": 0}}
         yield {"lines": L("L NOP", " RMB %d" % n, " LEAX L,PCR"), "tag": "pcr-far", "meta": {"mn": "LEAX", "stmt": 2, "target": 0, "k": 0}}
